@@ -719,9 +719,14 @@ pub enum Final {
     Aborted(RState),
 }
 
-/// All final results the property admits for a run with step limit `limit`
-/// (DESIGN section 3, tolerance 8).  `undecided` is set when the pop cap was
-/// reached on some branch.
+/// All final results the property admits for a run with step limit `limit`.
+/// One step = one item taken from the exec stack and performed (an instruction, or a
+/// block being unfolded onto the exec stack): the loop the property is anchored in counts
+/// exactly that, and running a program under the limits 0..N must expose every one of these
+/// intermediate states.  (DESIGN 9.2: the earlier tolerance that also admitted loops which
+/// perform several exec items within one counted step was withdrawn.)  Set-valued only through
+/// the instruction-level tolerances and the carried state of an abort.  With a step limit beyond
+/// `pop_cap` the run is followed for `pop_cap` steps and `undecided` is set if it has not halted.
 pub fn admissible_finals(
     s: &RState,
     limit: usize,
@@ -729,32 +734,20 @@ pub fn admissible_finals(
     undecided: &mut bool,
 ) -> Result<Vec<Final>, String> {
     let mut out = vec![];
-    rec(s.clone(), 0, 0, limit, pop_cap, undecided, &mut out)?;
+    rec(s.clone(), 0, limit, pop_cap, undecided, &mut out)?;
     Ok(out)
 }
 
 fn rec(
     s: RState,
     pops: usize,
-    isteps: usize,
     limit: usize,
     pop_cap: usize,
     undecided: &mut bool,
     out: &mut Vec<Final>,
 ) -> Result<(), String> {
-    if isteps > limit {
-        return Ok(());
-    }
-    if s.exec.is_empty() {
+    if s.exec.is_empty() || pops >= limit {
         out.push(Final::Done(s));
-        return Ok(());
-    }
-    if limit <= pops {
-        // isteps <= limit <= pops: a run cut off by the limit may stop here
-        out.push(Final::Done(s.clone()));
-    }
-    if isteps >= limit {
-        // under every admissible way of counting the budget is used up
         return Ok(());
     }
     if pops >= pop_cap {
@@ -763,19 +756,10 @@ fn rec(
     }
     let mut t = s;
     let item = t.exec.pop().unwrap();
-    let is_instr = matches!(item, PushProgram::Instruction(_));
     for o in ref_perform_program(&t, &item)? {
         match o.kind {
-            Kind::Ok => rec(
-                o.st,
-                pops + 1,
-                isteps + usize::from(is_instr),
-                limit,
-                pop_cap,
-                undecided,
-                out,
-            )?,
-            Kind::Skip => rec(t.clone(), pops + 1, isteps, limit, pop_cap, undecided, out)?,
+            Kind::Ok => rec(o.st, pops + 1, limit, pop_cap, undecided, out)?,
+            Kind::Skip => rec(t.clone(), pops + 1, limit, pop_cap, undecided, out)?,
             Kind::Fatal => {
                 // the carried state: the failing item already popped (current loop) or not
                 out.push(Final::Aborted(t.clone()));
